@@ -185,7 +185,8 @@ def _cost(game, args):
 
 # ------------------------------------------------------------------ C01 / C04 / C06: reachability side (native doubles)
 def _reach_jobs(tier, seed):
-    return [dict(game=g, args=a, _cost=1) for g, a in _stopping_instances(tier) + _reach_only_instances(tier)]
+    return [dict(game=g, args=a, _cost=1) for g, a in _stopping_instances(tier) + _reach_only_instances(tier)] + \
+        [dict(game="slow_chain", args=[], _props=["C01"])]
 
 
 def _check_shape(sp, g, res):
@@ -236,7 +237,8 @@ def pipe_reach(sp, game, args):
                 sp.cover("interior")
                 e = float(exact[s])
                 sp.prove(probs[s] <= e + 1e-12, "state %d reports %r above the exact value %r" % (s, probs[s], e))
-                sp.prove(e - probs[s] <= THR * max(Tf, 1) * 2, "state %d reports %r, exact value %r" % (s, probs[s], e))
+                sp.prove(e - probs[s] <= min(THR * max(Tf, 1) * 2, 1e-3),
+                         "state %d reports %r but its exact value is %r: not within the convergence tolerance" % (s, probs[s], e))
         # C04: exact optimal action sets wherever competing exact values are equal or > 1e-5 apart
         strat = res[1]
         for s in range(g.n):
